@@ -9,7 +9,8 @@ Inductive wire_case :=
 | CBytesReq (bs : list N)       (* Request::from_bytes on arbitrary bytes *)
 | CBytesResp (bs : list N)      (* Response::from_bytes on arbitrary bytes *)
 | CReadFrame (bs : list N)      (* read_message on a byte stream *)
-| CWriteFrameLen (n : N).       (* write_message on a body of n bytes: header or error *)
+| CWriteFrameLen (n : N)        (* write_message on a body of n bytes: header or error *)
+| CFrameRoundTrip (n : N).      (* write_message then read_message on a body of n bytes (lengths only; bodies: theorem) *)
 
 Definition show_err (e : werr) : string :=
   match e with
@@ -57,6 +58,11 @@ Definition run_wire_case (c : wire_case) : string :=
   | CReadFrame bs =>
       show_res (fun '(body, rest) => "frame:" ++ hex body ++ ":" ++ show_nat (List.length rest)) (read_message bs)
   | CWriteFrameLen n => show_res (fun h => "hdr:" ++ hex h) (write_header_len n)
+  | CFrameRoundTrip n =>
+      match write_header_len n with
+      | WErr e => show_err e
+      | WOk h => if (max_message_size <? le_dec h)%N then show_err ETooLarge else "ok"
+      end
   end.
 
 Definition run_wire_cases (cs : list wire_case) : string := lines (map run_wire_case cs).
